@@ -10,6 +10,7 @@ package common
 //@   requires et_known(tagof(e))
 //@   ensures err == nil ==> len(h) == et_hmacbits(tagof(e)) / 8
 //@   ensures err == nil ==> bytes(h) == simplified_cksum(tagof(e), bytes(key), bytes(usage), bytes(pt))
+//@   ensures err != nil ==> len(h) == 0
 //@ func crypto/common.GetChecksumHash(b, key, usage, e) (h, err)
 //@   pure
 //@   trusted_frame returned slices are not tracked as fresh; in-place append into spare capacity cannot be excluded
@@ -22,6 +23,7 @@ package common
 //@   requires et_known(tagof(e))
 //@   ensures err == nil ==> len(h) == et_hmacbits(tagof(e)) / 8
 //@   ensures err == nil ==> bytes(h) == simplified_cksum(tagof(e), bytes(key), usage_const(usage, 0x55), bytes(b))
+//@   ensures err != nil ==> len(h) == 0
 //@ func crypto/common.VerifyChecksum(key, chksum, msg, usage, e) (ok)
 //@   pure
 //@   requires et_known(tagof(e))
